@@ -421,3 +421,49 @@ def cached_selection_state(ctx, rule):
                            why=f"the copy keeps the cached {missing} of the slicer it was copied from: a sub-selection reports "
                                f"the shape / size of its parent", key=f"stale cached property after copy in {m.name}")
     ctx.count('cached_selection_copies', n)
+
+
+def distinct_wells(ctx, rule):
+    """Every well of a new plate is its own Container object: the constructor call that supplies the elements of
+    `self.wells` is evaluated once per element.  (Operations deep-copy the plate, and a deep copy keeps two references to
+    one object as two references to one copy - a plate whose wells alias changes everywhere at once.)"""
+    model = ctx.model
+    pi = model.func('Plate.__init__')
+    ff = ctx.flow('Plate.__init__')
+    ws = [s for s in ff.stores if s[2] == 'self.wells']
+    if not ws:
+        raise AnalysisError('Plate.__init__: store to self.wells not found')
+    stmt = ws[0][0]
+    value = stmt.value if isinstance(stmt, (ast.Assign, ast.AnnAssign)) else None
+    verdict, fact = None, ''
+
+    def fresh_call(e):
+        return isinstance(e, ast.Call) and ((isinstance(e.func, ast.Name) and e.func.id in ('Container', 'deepcopy')) or
+                                            (isinstance(e.func, ast.Attribute) and e.func.attr in ('deepcopy',)))
+    comps = [n for n in ast.walk(value) if isinstance(n, (ast.ListComp, ast.GeneratorExp))] if value is not None else []
+    innermost = [c for c in comps if not any(isinstance(x, (ast.ListComp, ast.GeneratorExp)) for x in ast.walk(c.elt))]
+    if innermost:
+        bad = [c for c in innermost if not fresh_call(c.elt)]
+        verdict = not bad
+        fact = f"element expression `{show(innermost[0].elt, 60)}`"
+        if bad and not isinstance(bad[0].elt, (ast.Name, ast.Attribute, ast.Subscript)):
+            raise AnalysisError(f"Plate.__init__: element expression of self.wells not understood: {show(bad[0].elt, 60)}")
+    elif value is not None:
+        txt = show(value, 120)
+        aliasing = any(isinstance(n, ast.Call) and isinstance(n.func, ast.Attribute) and n.func.attr in ('full', 'full_like', 'tile', 'repeat')
+                       for n in ast.walk(value)) or \
+            any(isinstance(n, ast.BinOp) and isinstance(n.op, ast.Mult) and isinstance(n.left, (ast.List, ast.Tuple))
+                for n in ast.walk(value))
+        if aliasing:
+            verdict, fact = False, f"`{txt}` repeats one object"
+        else:
+            # an empty object array filled in a loop: every subscript store must construct inside the loop
+            fills = [s for s in ff.stores if s[2] and s[2].startswith('self.wells[')]
+            if fills:
+                verdict = all(fresh_call(s[0].value) for s in fills if isinstance(s[0], ast.Assign))
+                fact = f"{len(fills)} element store(s)"
+            else:
+                raise AnalysisError(f"Plate.__init__: construction of self.wells not understood: {txt}")
+    ctx.ob(rule, pi, stmt.lineno, 'every well of a new plate is its own Container (constructed once per element)', bool(verdict),
+           fact=fact, why='all wells are one object: whatever is added to one well appears in every well, also after '
+           'deepcopy', key='wells alias one container')
